@@ -233,7 +233,7 @@ PROPS["C15"] = dict(
 
 PROPS["C12"] = dict(
     lean_modules=["WgslVerif.Props.C12"],
-    theorems=["WgslVerif.C12", "WgslVerif.C12_required_resolves", "WgslVerif.overrideEntry_spec", "WgslVerif.overrideFieldType_spec", "WgslVerif.mapGet_unique"],
+    theorems=["WgslVerif.C12", "WgslVerif.C12_required_resolves", "WgslVerif.C12_optional_resolves", "WgslVerif.overrideEntry_spec", "WgslVerif.overrideFieldType_spec", "WgslVerif.mapGet_unique"],
     streams=lambda tier, seed: (
         [("fixtures",), ("gen", "consts", seed, 600), ("gen", "general", seed, 300), ("gen", "entries", seed, 100)] if tier == "quick" else
         [("fixtures",), ("gen", "consts", seed, 15000), ("gen", "general", seed, 6000), ("gen", "entries", seed, 2000)]),
@@ -438,7 +438,37 @@ def write_stream_file(streams, path):
     return path
 
 
-PROPERTY_FAULTS = ["absent", "exit1-after-drain", "exit1-no-read", "kill-self", "kill-before-read",
+def run_stateful(pid, streams, workdir, wanted_substrings):
+    """call sequences in ONE process (harness `stateful`); returns (items, count). A bad verdict is attributed to this property
+    when its text contains one of wanted_substrings (the same sequence serves C16 / C17 / C18 / C19)."""
+    cases = write_stream_file(streams, os.path.join(workdir, "stateful.cases"))
+    r = subprocess.run([os.path.join(BIN, "stateful")], stdin=open(cases), stdout=subprocess.PIPE, stderr=subprocess.PIPE, text=True)
+    items, n = [], 0
+    for line in r.stdout.split("\n"):
+        if not line.startswith("(stateful"):
+            continue
+        n += 1
+        t = parse_sexp(line)[0]
+        if t[2] == "ok":
+            continue
+        for b in t[2][1:]:
+            msg = sx(b)
+            if any(w in msg for w in wanted_substrings):
+                sig = "stateful#" + re.sub(r"[^a-z0-9]+", "-", msg.lower())[:50].strip("-")
+                items.append((sig, f"within one process: {msg}", sx(t[1]), True))
+    if n == 0:
+        items.append(("stateful#harness", "stateful harness produced nothing: " + r.stderr[-200:], "", False))
+    return items, n
+
+
+def extra_c16(pid, tier, seed, workdir, known, write_replay):
+    items, n = run_stateful(pid, [("gen", "unicode", seed, 60 if tier == "quick" else 600), ("gen", "general", seed, 40 if tier == "quick" else 400)],
+                            workdir, ["include", "embedded"])
+    viol, kn = classify_and_report(pid, items, known, write_replay, {})
+    return {"stateful_sequences": n}, viol, kn, []
+
+
+PROPERTY_FAULTS = ["absent", "exit1-after-drain", "exit1-no-read", "kill-self", "kill-before-read", "kill-after-partial-output", "exit1-after-partial-output",
                    "exit0-no-read-empty", "exit0-drain-empty", "slow-ok", "real"]
 
 
@@ -488,6 +518,8 @@ def extra_c19(pid, tier, seed, workdir, known, write_replay):
                 items.append(("same-program#different", f"rustfmt on vs off are different programs (off {off}, on {on})", cid, True))
     if ntr == 0:
         items.append(("faults#harness", "faults harness produced no trials: " + r.stderr[-300:], "", False))
+    st_items, st_n = run_stateful(pid, [("gen", "structs", seed, 40 if tier == "quick" else 400)], workdir, ["rustfmt"])
+    items += st_items
     case_by_id = {}
     for l in open(cases):
         m = re.match(r'\(src "([^"]*)"', l)
@@ -520,6 +552,21 @@ def extra_c18(pid, tier, seed, workdir, known, write_replay):
             cov["determinism_summary"] = line[:600]
     if "determinism_summary" not in cov:
         items.append(("determinism#harness", "determinism harness gave no summary: " + r.stderr[-300:], "", False))
+    st_items, st_n = run_stateful(pid, [("gen", "general", seed, 60 * n), ("gen", "structs", seed, 30 * n)], workdir, [""])
+    items += st_items
+    cov["stateful_sequences"] = st_n
+    # concurrent calls on DIFFERENT large shaders with the formatter on (outputs above the pipe buffer)
+    big = write_stream_file([("big", 260, 4 if tier == "quick" else 10)], os.path.join(workdir, "big.cases"))
+    rb = subprocess.run([os.path.join(BIN, "determinism"), "--cases", big, "--opts", "96", "--children", "0", "--threads", "6"],
+                        stdout=subprocess.PIPE, stderr=subprocess.PIPE, text=True)
+    for line in rb.stdout.split("\n"):
+        if line.startswith("(nondeterministic"):
+            t = parse_sexp(line)[0]
+            items.append((f"determinism#formatter-concurrent-{re.sub(r'[0-9]+$', '', sx(t[3]))}", f"large case {sx(t[1])} with rustfmt on: output differs ({sx(t[3])})", sx(t[1]), True))
+        elif line.startswith("(summary"):
+            cov["determinism_big_formatter_summary"] = line[:400]
+    if "determinism_big_formatter_summary" not in cov:
+        items.append(("determinism#harness-big", "determinism (large, rustfmt on) gave no summary: " + rb.stderr[-300:], "", False))
     viol, kn = classify_and_report(pid, items, known, write_replay, {})
     return cov, viol, kn, []
 
@@ -549,13 +596,15 @@ def extra_c17(pid, tier, seed, workdir, known, write_replay):
                 items.append(("corrupt#panic-on-rejected-source", f"{sx(t[1])} corruption {t[2]}: {sx(t[3])[:160]}", sx(t[1]), True))
     if ncor == 0:
         items.append(("corrupt#harness", "corrupt harness produced no cases", "", False))
+    st_items, st_n = run_stateful(pid, [("gen", "general", seed, 80 * n), ("gen", "consts", seed, 20 * n)], workdir, ["capabilities"])
+    items += st_items
     case_by_id = {}
     for l in open(cases):
         m = re.match(r'\(src "([^"]*)"', l)
         if m:
             case_by_id[m.group(1)] = l.rstrip("\n")
     viol, kn = classify_and_report(pid, items, known, write_replay, case_by_id)
-    return {"corrupted_sources": ncor, "naga_classes": hist}, viol, kn, []
+    return {"corrupted_sources": ncor, "naga_classes": hist, "stateful_sequences": st_n}, viol, kn, []
 
 
 PROPS["C19"] = dict(
@@ -640,7 +689,7 @@ def extra_c07(pid, tier, seed, workdir, known, write_replay):
 
 PROPS["C07"] = dict(
     lean_modules=["WgslVerif.Props.C07"],
-    theorems=["WgslVerif.C07_structs", "WgslVerif.C07_format", "WgslVerif.getVertexInputStructs_mem", "WgslVerif.locatedMembers_spec",
+    theorems=["WgslVerif.C07_structs", "WgslVerif.C07_entries", "WgslVerif.C07_format", "WgslVerif.getVertexInputStructs_mem", "WgslVerif.locatedMembers_spec",
               "WgslVerif.vertexInputOf_name", "WgslVerif.dedupByName_sub", "WgslVerif.vertexEntryStructs_length"],
     streams=lambda tier, seed: (
         [("fixtures",), ("gen", "vertex", seed, 500), ("gen", "general", seed, 200), ("gen", "entries", seed, 100)] if tier == "quick" else
@@ -844,3 +893,6 @@ PROPS["C01"] = dict(
                                    "resolution of nested struct references)", "nalgebra is not available offline: the Nalgebra representation is covered at fact level only"],
     assumptions=["partial: 'rustc accepts' cannot be a Lean theorem; classes of rejected modules are recorded findings, any other rejection is a violation"],
 )
+
+
+PROPS["C16"]["extra"] = extra_c16
